@@ -24,7 +24,7 @@ Import ListNotations.
 Theorem lifecycle_glue_sweep : forall hashf d, boxlike d -> forall A g s g',
   TabM hashf g -> RM.pending g = [] -> Rel d g s -> GInv A s ->
   RP.Gsweep hashf d true true g = Some g' ->
-  Tab hashf g' /\ Rel d g' (sweep c17_rule true (fin_top c17_rule true true true) (c_order g) (c_marks g) s) /\
+  Tab hashf g' /\ Rel d g' (sweep c17_rule true (fin_top c17_rule true true true nopro) (c_order g) (c_marks g) s) /\
   RM.pending g' = [] /\ Mono g g'.
 Proof. exact glue_sweep_thm. Qed.
 Print Assumptions lifecycle_glue_sweep.
@@ -34,7 +34,7 @@ Print Assumptions lifecycle_glue_sweep.
 Theorem lifecycle_glue_rem : forall hashf d, boxlike d -> forall f A g s p g',
   Tab hashf g -> Rel d g s -> GInv A s ->
   RP.Grem hashf d true f g p = Some g' ->
-  Tab hashf g' /\ Rel d g' (gc_rem c17_rule true (fin_top c17_rule true true true) s (idn p)) /\ Mono g g'.
+  Tab hashf g' /\ Rel d g' (gc_rem c17_rule true (fin_top c17_rule true true true nopro) s (idn p)) /\ Mono g g'.
 Proof. exact glue_rem_thm. Qed.
 Print Assumptions lifecycle_glue_rem.
 
